@@ -32,7 +32,7 @@ ASSUMPTIONS = ["alignment (reply belongs to its request, nothing left unread) is
                "an exception raised by a helper itself (not inside command()/query()) is logged as an observation: the "
                "statement is about the two primitives"]
 
-OK_QUERIES = ["QP", "QB", "QS", "QC", "QL", "QT", "QN", "QR", "qp", "Qs"]
+OK_QUERIES = ["QP", "QB", "QS", "QC", "QL", "QT", "QN", "QR", "qp", "Qs", "QT,{x}", "QN,%s"]
 NOOK_QUERIES = ["A", "I", "MR", "PI,E,0", "PI,C,1", "QM", "QG", "V", "v", "qg", "pi,B,3", "Mr", " QG"]
 COMMANDS = ["SM,100,10,-10", "EM,1,1", "SP,1,100", "TP", "SL,7", "SC,4,12000", "PO,B,3,0", "PD,B,3,0", "HM,1000",
             "XM,100,5,5", "LM,85899346,10,0,85899346,-10,0", "ST,Ada", "EM,0,0", "sp,0",
@@ -40,7 +40,8 @@ COMMANDS = ["SM,100,10,-10", "EM,1,1", "SP,1,100", "TP", "SL,7", "SC,4,12000", "
             "LM,2147483647,2147483647,2147483647,2147483647,2147483647,2147483647",                  # 69 bytes
             "SM,16777215,-8388608,-8388607" + ",0" * 20,                                             # 69 bytes
             "ST," + "n" * 61,                                                                        # 64 bytes + CR
-            "ST," + "n" * 62, "ST," + "x" * 126, "ST," + "y" * 200]
+            "ST," + "n" * 62, "ST," + "x" * 126, "ST," + "y" * 200,
+            "ST,{AxiDraw}", "ST,{}", "ST,{0}", "ST,%s %d", "ST,100%", "ST,{a}{", "ST,}{"]
 EXCS = ("SerialException", "SerialTimeoutException", "PortNotOpenError", "OSError")
 
 
